@@ -51,6 +51,9 @@ var ErrLocked = errors.New("simdisk: file already locked")
 // write|sync|truncate|size|mmap|read; n counts calls of that kind, total all calls.
 type FaultFn func(kind string, n, total int) Action
 
+// ErrUnmapNil is returned by MUnmap for an empty mapping when StrictUnmap is set.
+var ErrUnmapNil = fmt.Errorf("simdisk: munmap of an empty range (EINVAL)")
+
 // Disk is an in-memory file.
 type Disk struct {
 	mu   sync.Mutex
@@ -77,6 +80,7 @@ type Disk struct {
 
 	MaxExtent int64 // largest offset+len ever written or truncated to
 	Poison    bool  // poison views on unmap
+	StrictUnmap bool // MUnmap of an empty slice fails like munmap(2)
 
 	Calls map[string]int // successful + failed calls by kind (for evidence)
 }
@@ -345,7 +349,13 @@ func (d *Disk) MMap(sz int) ([]byte, error) {
 func (d *Disk) MUnmap(b []byte) error {
 	d.mu.Lock()
 	defer d.mu.Unlock()
+	if d.act("munmap") == ActErr {
+		return ErrInjected
+	}
 	if len(b) == 0 {
+		if d.StrictUnmap {
+			return ErrUnmapNil // munmap(2) of an empty range fails with EINVAL
+		}
 		return nil
 	}
 	if d.view != nil && len(d.view) > 0 && &b[0] == &d.view[0] {
